@@ -1,6 +1,6 @@
 PROP = {
-    "confirm_scenarios": ['timed', 'noread'],
-    "coq": ["C07", "C07b"],
+    "confirm_scenarios": ['timed', 'noread', 'steady'],
+    "coq": ["C07", "C07b", "C07c"],
     "exhaustive": False,
     "rule": "timed (REAL time, timeout 150 ms; thorough: 100/150/250 ms): one public client call (8 small read/write operations, valid "
             "arguments) against a peer that plays a timed stream, on: tcp and rtuovertcp (19200, 115200 bps) attached to the scripted "
@@ -30,7 +30,21 @@ PROP = {
             "the same bound + 400 ms slack; hang if a bound + 1 s watchdog fired), whether the Write found the link full (scripted "
             "only), bytes taken by the link; expected values from the extracted tm_session_w (Model/TimedWrite.v): request-timed-out "
             "for every dead call whatever the room (c07b_dead_peer_*), the w flag and byte count from the room accounting, and the "
-            "measured duration at most the predicted return (loopback: the bound) + slack.",
+            "measured duration at most the predicted return (loopback: the bound) + slack. "
+            "steady (REAL time; a LONG-LIVED connection to a peer that is alive): N calls of one small operation in a row on ONE "
+            "connection that is never re-opened, N = 65576..65975 on the MBAP transports (thorough: also twice round and short "
+            "sessions), so that the per-connection state of the transport - the 16-bit transaction counter - takes every value and "
+            "starts again; 150..250 calls on rtuovertcp (rt.lastActivity carried from call to call). Scripted connection (tcp, "
+            "rtuovertcp 115200) and modbus.NewClient + Open against fake devices on loopback TCP / UDP (quick: one of the two) that read every request "
+            "and answer it at once with the valid reply carrying the transaction id FOUND IN THE REQUEST (timeout 1 s); at a few "
+            "request indices drawn anywhere and next to the wrap the peer stays silent, answers 0.3/0.5 x timeout late, or first sends "
+            "a well-formed frame with a foreign id (the previous one, the next one, +0x8000, any). The session is abandoned after "
+            "the (silences + 3)rd call without values. Observables: run-length encoded outcome/duration-verdict sequence (slack "
+            "400 ms, hang if a bound + 2 s monitor had to close the connection), number of calls, first request id and how many "
+            "ids go up by one mod 2^16, the calls slower than 200 ms with their duration; expected values from the extracted "
+            "tm_steady_calls / tm_steady_ids (Model/TimedSteady.v) run through tm_session_w: every call but the silent ones "
+            "returns the values of its reply (c07c_steady_session_mbap, any session length), each listed duration at most the "
+            "predicted return + slack.",
     "assumptions": [
         "physical assumption: finitely many bytes arrive in finite time (the peer is a finite timed stream; only bytes arriving before "
         "the deadline plus the flush window matter)",
@@ -55,7 +69,11 @@ CLAIM = {
             "stream on RTU) whose last byte arrives by the deadline is accepted with its values and never turned into a timeout; every "
             "iteration of the skip loop consumes at least 8 bytes, so the loop terminates (no fuel artefact, no panic). A peer that stops "
             "READING (C07b): the same bounds hold for every amount of room left in the link and every session of calls; a request that "
-            "does not fit yields request-timed-out at the deadline; a dead peer yields request-timed-out on every call. The real client is "
+            "does not fit yields request-timed-out at the deadline; a dead peer yields request-timed-out on every call. A LONG-LIVED "
+            "connection (C07c): in a session of ANY length, started with any value of the 16-bit transaction counter, against a peer "
+            "that answers every request within the timeout with the id of the request (possibly after a frame with a foreign id), "
+            "every call returns the values of its reply and consumes it to the last byte; a silence costs one request-timed-out and "
+            "nothing else; the i-th request carries the id (start + 1 + i) mod 2^16. The real client is "
             "run in real time against scripted peers of every behaviour class on seven transports and compared with the model's outcome "
             "and bound on every run.",
     "note": "PARTIAL: that Go's net.Conn deadlines, time.Sleep, the kernel sockets and the pty/serial driver behave like the model's "
@@ -63,7 +81,7 @@ CLAIM = {
             "is instantaneous in the model, and so is a Write that fits into the link (one that does not blocks until the deadline, "
             "C07b); the serial wrapper arms no write deadline and is not run against a blocked Write. tcp+tls is not run (tlsSockWrapper.Read/SetDeadline are pass-throughs to the same "
             "net.Conn deadline mechanism); the physical serial line is replaced by a pseudo-terminal. Trusted: kernel, extraction, "
-            "modeld glue (ocaml/scn_timed.ml), Go harness (c07.go), VerifNewClientOnConn / VerifSerialTimings hooks.",
+            "modeld glue (ocaml/scn_timed.ml, scn_noread.ml, scn_steady.ml), Go harness (c07*.go), VerifNewClientOnConn / VerifSerialTimings hooks.",
     "technique": "Coq proof (induction over the timed stream; simulation of the timed by the untimed model on the prefix arrived by the "
                  "deadline, reusing the C02 completeness theorems; byte measure for the skip loop) + real-time differential "
                  "correspondence with a watchdog",
